@@ -67,7 +67,8 @@ def fault_suite(ctx, kres):
     import concurrent.futures, collections, json
     from .. import crash
     setup, names = crash.scene()
-    scen = [s[0] for s in crash.scenarios(names) if not s[0].startswith("login") and s[0] != "logout" and not s[0].startswith("read-") and s[0] not in ("search-all", "inittoken-free")]
+    scen = [s[0] for s in crash.scenarios(names) if not s[0].startswith("login") and s[0] != "logout" and not s[0].startswith("read-") and s[0] not in ("search-all", "inittoken-free")
+            and not (s[0].startswith("create-mechs-cut") and s[0] != "create-mechs-cut8")]       # the 25 differ by calibrated file size only (C16's cuts); one of them is enough as a fault scenario
     if ctx.quick: scen = [s for s in scen if s in FAULT_QUICK]
     kres["suites"] += 1
     def go(nm):
